@@ -1,4 +1,584 @@
-#ifndef CFG_PROF_roundtrip_H
-#define CFG_PROF_roundtrip_H
-static void prof_roundtrip(vh_rng_t *r, const vh_args_t *a){(void)r;(void)a;}
+/* cfg_prof_roundtrip.h - profile `roundtrip` (C16): a channel built from random options and
+ * setters under a generated (valid) system configuration; then
+ *   view     what ares_save_options()/ares_get_servers_ports() report is what the channel holds
+ *   setter   servers given to a setter are the servers the channel uses (order, ports, iface)
+ *   save     ares_save_options() -> ares_init_options(new)       => E equal
+ *   dup      ares_dup()                                           => E equal, incl. server list
+ *   csv      ares_get_servers_csv() -> ares_set_servers_ports_csv() reproduces itself
+ *   nodes    ares_get_servers_ports()/ares_get_servers() -> ares_set_servers_ports()/..servers()
+ */
+#ifndef CFG_PROF_ROUNDTRIP_H
+#define CFG_PROF_ROUNDTRIP_H
+
+/* a moderately rich valid system configuration; returns directive set */
+static unsigned gen_sysconfig(vh_rng_t *r, cfg_sys_t *s, const cfg_uopts_t *u, int rich)
+{
+  unsigned dirs = 0;
+  if (vh_chance(r, rich ? 9 : 7, 10)) {
+    cfg_lines_t ls;
+    cfg_bb_t    bb = { 0 };
+    ls.n = 0;
+    dirs |= gen_resolv_valid(r, &ls, rich ? 2 : 0, 6, 1);
+    if (rich && vh_chance(r, 2, 3)) {
+      cfg_bb_t *l = cfg_lines_new(&ls);
+      cfg_bb_printf(l, "options rotate use-vc ndots:%d timeout:%d attempts:%d", vh_range(r, 0, 15),
+                    vh_range(r, 1, 30), vh_range(r, 1, 5));
+      dirs |= D_ROTATE | D_USEVC | D_NDOTS | D_TIMEOUT | D_ATTEMPTS;
+      l = cfg_lines_new(&ls);
+      cfg_bb_str(l, "nameserver 198.51.100.1");
+      dirs |= D_NS4;
+    }
+    cfg_lines_join(&ls, &bb, 1);
+    cfg_lines_free(&ls);
+    cfg_sys_set_file(s, CF_RESOLV, bb.b ? bb.b : "", bb.len);
+    if (u && (u->eff_mask & ARES_OPT_RESOLVCONF)) {
+      cfg_sys_set_file(s, CF_RESOLV_ALT, bb.b ? bb.b : "", bb.len);
+    }
+    cfg_bb_free(&bb);
+  }
+  if (vh_chance(r, 1, 3)) {
+    cfg_lines_t ls;
+    cfg_bb_t    bb = { 0 };
+    ls.n = 0;
+    dirs |= gen_nsswitch_valid(r, &ls);
+    cfg_lines_join(&ls, &bb, 1);
+    cfg_lines_free(&ls);
+    cfg_sys_set_file(s, CF_NSSWITCH, bb.b ? bb.b : "", bb.len);
+    cfg_bb_free(&bb);
+  }
+  if (vh_chance(r, 1, 10)) {
+    cfg_lines_t ls;
+    cfg_bb_t    bb = { 0 };
+    ls.n = 0;
+    dirs |= gen_svc_valid(r, &ls);
+    cfg_lines_join(&ls, &bb, 1);
+    cfg_lines_free(&ls);
+    cfg_sys_set_file(s, vh_chance(r, 1, 2) ? CF_SVC : CF_NETSVC, bb.b ? bb.b : "", bb.len);
+    cfg_bb_free(&bb);
+  }
+  if (vh_chance(r, 1, rich ? 2 : 5)) {
+    cfg_bb_t bb = { 0 };
+    cfg_bb_add(&bb, "", 0);
+    gen_options_value(r, &bb, &dirs);
+    cfg_sys_set_env(s, CE_RES_OPTIONS, bb.b);
+    cfg_bb_free(&bb);
+  }
+  if (vh_chance(r, 1, rich ? 3 : 6)) {
+    cfg_sys_set_env(s, CE_LOCALDOMAIN, gen_domain(r));
+    dirs |= D_DOMAIN;
+  }
+  if (vh_chance(r, 1, rich ? 2 : 4)) {
+    strcpy(s->hostname, vh_chance(r, 1, 2) ? "host.domain.org" : "h.sub.example.net");
+  }
+  if (vh_chance(r, 1, 4)) {
+    cfg_sys_set_file(s, CF_HOSTS, "127.0.0.1 localhost\n10.1.2.3 db.corp.example db\n", 49);
+    if (u && (u->eff_mask & ARES_OPT_HOSTS_FILE)) {
+      cfg_sys_set_file(s, CF_HOSTS_ALT, "127.0.0.1 localhost\n10.1.2.3 db.corp.example db\n", 49);
+    }
+  }
+  return dirs;
+}
+
+/* what the server list must be after a successful setter call (ares_set_servers*.3,
+ * ares_set_servers_csv.3: replaces the list, ports default to the channel's or 53, %iface for
+ * link-local; ARES_FLAG_PRIMARY keeps the first only; repeated identical entries collapse) */
+static char *model_servers(const cfg_srv_t *s, int n, int how, unsigned chan_udp, unsigned chan_tcp,
+                           int primary)
+{
+  vh_sb_t  sb = { 0 };
+  int      i, j, kept = 0;
+  unsigned ku[U_MAXSRV + 2], kt[U_MAXSRV + 2];
+  int      ki[U_MAXSRV + 2];
+  for (i = 0; i < n; i++) {
+    unsigned udp = (unsigned)s[i].udp_port, tcp = (unsigned)s[i].tcp_port;
+    int      ll  = s[i].family == AF_INET6 && s[i].addr[0] == 0xfe && (s[i].addr[1] & 0xc0) == 0x80;
+    int      dup = 0;
+    char     buf[INET6_ADDRSTRLEN + 1];
+    if (how == 3) {
+      udp = tcp = 0;
+    }
+    if (how <= 1 && tcp == 0 && udp != 0) {
+      tcp = udp; /* textual forms carry one port for both unless ?tcpport= is given */
+    }
+    if (udp == 0) {
+      udp = chan_udp ? chan_udp : 53;
+    }
+    if (tcp == 0) {
+      tcp = chan_tcp ? chan_tcp : 53;
+    }
+    if (ll && how >= 2) {
+      continue; /* node lists cannot carry an interface: documented to be skipped */
+    }
+    for (j = 0; j < kept; j++) {
+      if (s[ki[j]].family == s[i].family &&
+          memcmp(s[ki[j]].addr, s[i].addr, s[i].family == AF_INET ? 4 : 16) == 0 && ku[j] == udp &&
+          kt[j] == tcp) {
+        dup = 1;
+      }
+    }
+    if (dup) {
+      continue;
+    }
+    ki[kept] = i;
+    ku[kept] = udp;
+    kt[kept] = tcp;
+    kept++;
+    if (primary && kept > 1) {
+      continue;
+    }
+    ares_inet_ntop(s[i].family, s[i].addr, buf, sizeof(buf));
+    vh_sb_printf(&sb, "%c:%s|u%u|t%u|%%%s|s%u;", s[i].family == AF_INET ? '4' : '6', buf, udp, tcp,
+                 ll ? s[i].iface : "", ll ? __wrap_if_nametoindex(s[i].iface) : 0);
+  }
+  return cfg_sb_take(&sb);
+}
+
+static int rt_popcount(unsigned x)
+{
+  int n = 0;
+  while (x) {
+    n += (int)(x & 1);
+    x >>= 1;
+  }
+  return n;
+}
+
+/* IPv4 subset of an "i.server_addrs" rendering with duplicates removed */
+static char *rt_ipv4_subset(const char *addrs)
+{
+  vh_sb_t     sb = { 0 };
+  const char *p  = addrs;
+  vh_sb_printf(&sb, "%s", "");
+  while (p && *p) {
+    const char *e = strchr(p, ';');
+    size_t      l = e ? (size_t)(e - p) + 1 : strlen(p);
+    if (p[0] == '4') {
+      char tok[96];
+      if (l < sizeof(tok)) {
+        memcpy(tok, p, l);
+        tok[l] = 0;
+        if (sb.b == NULL || strstr(sb.b, tok) == NULL) {
+          vh_sb_printf(&sb, "%s", tok);
+        }
+      }
+    }
+    p += l;
+  }
+  return cfg_sb_take(&sb);
+}
+
+static char *rt_dedup_addrs(const char *addrs)
+{
+  vh_sb_t     sb = { 0 };
+  const char *p  = addrs;
+  vh_sb_printf(&sb, "%s", "");
+  while (p && *p) {
+    const char *e = strchr(p, ';');
+    size_t      l = e ? (size_t)(e - p) + 1 : strlen(p);
+    char        tok[96];
+    if (l < sizeof(tok)) {
+      memcpy(tok, p, l);
+      tok[l] = 0;
+      /* token boundary: tokens start with "4:" / "6:" and end with ';' */
+      if (sb.b == NULL || strstr(sb.b, tok) == NULL) {
+        vh_sb_printf(&sb, "%s", tok);
+      }
+    }
+    p += l;
+  }
+  return cfg_sb_take(&sb);
+}
+
+/* key name of a differing field; a few known causes get their own name so that the entry in
+ * the known-findings list stays narrow */
+static int rt_has_ll_noiface(const char *servers)
+{
+  const char *p = servers;
+  while (p && (p = strstr(p, "6:fe")) != NULL) {
+    const char *e = strchr(p, ';');
+    if ((p[4] == '8' || p[4] == '9' || p[4] == 'a' || p[4] == 'b') && e) {
+      const char *q = strstr(p, "|%|");
+      if (q && q < e) {
+        return 1;
+      }
+    }
+    p += 4;
+  }
+  return 0;
+}
+
+static const char *rt_keyname(const char *field, const cfg_uopts_t *u, int ll_noiface, char *buf,
+                              size_t len)
+{
+  if (u->use_null && (!strcmp(field, "i.qcache_max_ttl") || !strcmp(field, "i.optmask"))) {
+    snprintf(buf, len, "%s(null-options)", field);
+    return buf;
+  }
+  if (ll_noiface && (!strcmp(field, "i.servers") || !strcmp(field, "i.server_addrs"))) {
+    snprintf(buf, len, "%s(linklocal-without-iface)", field);
+    return buf;
+  }
+  if (!u->use_null && (!strcmp(field, "i.timeout") || !strcmp(field, "i.optmask")) &&
+      (u->mask & (ARES_OPT_TIMEOUT | ARES_OPT_TIMEOUTMS)) == (ARES_OPT_TIMEOUT | ARES_OPT_TIMEOUTMS) &&
+      u->o.timeout <= 0) {
+    snprintf(buf, len, "%s(both-timeout-bits,value<=0)", field);
+    return buf;
+  }
+  return field;
+}
+
+/* compare all "i." fields except skip[]; one violation per differing field */
+static int rt_compare(const char *oracle, const cfg_eff_t *a, const cfg_eff_t *b,
+                      const char *const *skip, const cfg_uopts_t *u, const char *uo, const char *w)
+{
+  int         lln = rt_has_ll_noiface(cfg_eff_get(a, "i.servers"));
+  const char *sk[CFG_MAXKV + 1];
+  int         n = 0, nv = 0;
+  const char *d;
+  while (skip && skip[n]) {
+    sk[n] = skip[n];
+    n++;
+  }
+  sk[n] = NULL;
+  while ((d = cfg_eff_diff(a, b, NULL, sk)) != NULL && n < CFG_MAXKV) {
+    char key[160], nb[96];
+    snprintf(key, sizeof(key), "cfg16:%s:%s", oracle, rt_keyname(d, u, lln, nb, sizeof(nb)));
+    vh_violation(key, "%s: original %.300s, %s %.300s | %s | %s", d, cfg_eff_get(a, d), oracle,
+                 cfg_eff_get(b, d) ? cfg_eff_get(b, d) : "-", uo, w);
+    nv++;
+    sk[n++] = d;
+    sk[n]   = NULL;
+  }
+  return nv;
+}
+
+#define RT_V(key, ...)                \
+  do {                                \
+    vh_violation(key, __VA_ARGS__);   \
+    violated++;                       \
+  } while (0)
+
+static void prof_roundtrip(vh_rng_t *r, const vh_args_t *a)
+{
+  cfg_sys_t       sys;
+  cfg_uopts_t     u;
+  ares_channel_t *ch = NULL, *ch2 = NULL;
+  cfg_eff_t       e0;
+  int             rc, violated = 0;
+  int             ll_ok = (int)vh_opt_int(a, "ll", 0);
+  unsigned        dirs, sclass = 0;
+  int             how = -1, nset = 0, set_rc = 0;
+  cfg_srv_t       set[U_MAXSRV];
+  char           *set_text = NULL;
+  char           *uo, *w;
+  const char     *d;
+
+  cfg_prop = "cfg16";
+  cfg_sys_init(&sys);
+  switch (vh_below(r, 4)) {
+    case 0:
+      gen_uopts(r, &u, 0, 1, 0);
+      break;
+    case 1:
+      gen_uopts(r, &u, 1, 5, U_ALLOW_PATHS);
+      break;
+    default:
+      gen_uopts(r, &u, 1, 2, U_ALLOW_PATHS);
+      break;
+  }
+  dirs = gen_sysconfig(r, &sys, &u, 0);
+  cfg_sys_apply(&sys);
+  uo = render_uopts(&u);
+  w  = cfg_witness(&sys);
+  if (vh_verbose) {
+    vh_trace("options: %s", uo);
+    vh_trace("environment: %s", w);
+  }
+
+  cfg_lib_begin();
+  rc = cfg_init(&ch, &u);
+  if (rc != ARES_SUCCESS) {
+    CNT("roundtrip_init_error");
+    RT_V("cfg16:roundtrip:init-failed", "ares_init_options rc=%d for %s | %s", rc, uo, w);
+    goto done;
+  }
+
+  /* ---- setters */
+  if (vh_chance(r, 3, 5)) {
+    char *model, *got;
+    how = (int)vh_below(r, 4);
+    if (vh_chance(r, 1, 30)) {
+      nset = 0; /* clearing the list is allowed (documented, asserted by the pinned suite) */
+    } else {
+      nset = gen_server_set(r, set, 5, ll_ok, &sclass);
+    }
+    if (nset == 0 && how <= 1) {
+      set_rc   = how == 0 ? ares_set_servers_csv(ch, vh_chance(r, 1, 2) ? "" : NULL)
+                          : ares_set_servers_ports_csv(ch, "");
+      set_text = strdup("");
+    } else {
+      set_rc = apply_server_set(r, ch, set, nset, how, &set_text);
+    }
+    if (set_rc == ARES_SUCCESS && how >= 2 && (sclass & SC_LL)) {
+      /* node lists cannot name an interface; what happens to fe80::/10 entries is unspecified */
+      CNT("setter_model_skipped_linklocal_nodes");
+    } else if (set_rc != ARES_SUCCESS) {
+      RT_V("cfg16:setter:servers:rejected-valid", "how=%d rc=%d text=\"%s\"", how, set_rc,
+           set_text ? set_text : "(nodes)");
+    } else {
+      ares_channel_lock(ch);
+      model = model_servers(set, nset, how, ch->udp_port, ch->tcp_port,
+                            (ch->flags & ARES_FLAG_PRIMARY) != 0);
+      got   = cfg_fmt_servers_internal(ch, 1, 1);
+      ares_channel_unlock(ch);
+      CNT("setter_model_evaluations");
+      if (strcmp(model, got) != 0) {
+        static const char *const hn[] = { "csv", "ports_csv", "ports-nodes", "nodes" };
+        char                     key[96];
+        /* distinguish the loss of link-local entries from any other disagreement */
+        if ((sclass & SC_LL) && how <= 1 && strstr(got, "6:fe") == NULL && strstr(model, "6:fe")) {
+          snprintf(key, sizeof(key), "cfg16:setter:servers:linklocal-dropped");
+        } else {
+          snprintf(key, sizeof(key), "cfg16:setter:servers:%s:mismatch", hn[how]);
+        }
+        RT_V(key, "given \"%s\" expected %s got %s | %s", set_text ? set_text : "(nodes)", model, got,
+             uo);
+      }
+      free(model);
+      free(got);
+    }
+  }
+  if (vh_chance(r, 1, 3)) {
+    cfg_bb_t sl = { 0 };
+    int      src;
+    cfg_bb_add(&sl, "", 0);
+    gen_sortlist_value(r, &sl);
+    src = ares_set_sortlist(ch, sl.b);
+    if (src != ARES_SUCCESS) {
+      RT_V("cfg16:setter:sortlist:rejected-valid", "rc=%d for \"%s\"", src, sl.b);
+    }
+    cfg_bb_free(&sl);
+    CNT("set_sortlist");
+  }
+  if (vh_chance(r, 1, 4)) {
+    unsigned char ip6[16];
+    int           i;
+    for (i = 0; i < 16; i++) {
+      ip6[i] = (unsigned char)vh_below(r, 256);
+    }
+    ares_set_local_ip4(ch, (unsigned)vh_rand64(r));
+    ares_set_local_ip6(ch, ip6);
+    ares_set_local_dev(ch, vh_chance(r, 1, 2) ? "eth0" : "dummy0");
+  }
+
+  cfg_eff_read(ch, &e0, CFG_EFF_PUBLIC);
+
+  if (e0.nservers == 0) {
+    /* "passing NULL will clear all configured servers and make an inoperable channel"
+     * (ares_set_servers.3); ares_save_options()/ares_dup() answer ARES_ENODATA for it */
+    CNT("roundtrip_empty_server_list");
+    goto csv;
+  }
+
+  /* ---- view */
+  CNT("view_evaluations");
+  d = cfg_eff_views_agree(&e0);
+  if (d) {
+    char  key[96];
+    char *txt = cfg_eff_render(&e0, NULL);
+    snprintf(key, sizeof(key), "cfg16:view:%s", d);
+    RT_V(key, "public view disagrees with channel state: %.1200s", txt);
+    free(txt);
+  }
+  {
+    /* ares_get_servers_ports() vs. the internal list */
+    char *ip;
+    ares_channel_lock(ch);
+    ip = cfg_fmt_servers_internal(ch, 1, 0);
+    ares_channel_unlock(ch);
+    if (strcmp(ip, cfg_eff_get(&e0, "p.ports")) != 0) {
+      RT_V("cfg16:view:p.ports", "ares_get_servers_ports %s, channel %s", cfg_eff_get(&e0, "p.ports"),
+           ip);
+    }
+    free(ip);
+  }
+
+  /* ---- save -> init */
+  {
+    struct ares_options o;
+    int                 m  = 0;
+    int                 sr = ares_save_options(ch, &o, &m);
+    CNT("save_init_evaluations");
+    if (sr != ARES_SUCCESS) {
+      RT_V("cfg16:save-init:save-failed", "ares_save_options rc=%d | %s", sr, uo);
+      ares_destroy_options(&o);
+    } else {
+      int ir = ares_init_options(&ch2, &o, m);
+      ares_destroy_options(&o);
+      if (ir != ARES_SUCCESS) {
+        RT_V("cfg16:save-init:init-failed", "ares_init_options(saved) rc=%d mask=0x%x | %s | %s", ir,
+             (unsigned)m, uo, w);
+        ch2 = NULL;
+      } else {
+        static const char *const skip[] = { "i.servers",   "i.server_addrs", "i.local_dev",
+                                            "i.local_ip4", "i.local_ip6",    "i.server_state_cb",
+                                            "i.optmask",   NULL };
+        cfg_eff_t e1;
+        cfg_eff_read(ch2, &e1, 0);
+        violated += rt_compare("save-init", &e0, &e1, skip, &u, uo, w);
+        {
+          /* the ARES_OPT_SERVERS bit follows the IPv4 subset (see below), all others must agree */
+          unsigned dm = (e0.optmask ^ e1.optmask) & ~(unsigned)ARES_OPT_SERVERS;
+          if (dm) {
+            char key[160], nb[96];
+            snprintf(key, sizeof(key), "cfg16:save-init:%s", rt_keyname("i.optmask", &u, 0, nb, sizeof(nb)));
+            RT_V(key, "optmask 0x%x became 0x%x | %s", e0.optmask, e1.optmask, uo);
+          }
+        }
+        if (e0.optmask & ARES_OPT_SERVERS) {
+          /* only IPv4 addresses survive ares_save_options (documented); ports do not */
+          char *sub = rt_ipv4_subset(cfg_eff_get(&e0, "i.server_addrs"));
+          if (sub[0] && strcmp(sub, cfg_eff_get(&e1, "i.server_addrs")) != 0) {
+            RT_V("cfg16:save-init:i.server_addrs", "IPv4 servers %s became %s | %s", sub,
+                 cfg_eff_get(&e1, "i.server_addrs"), uo);
+          }
+          free(sub);
+        } else if (strcmp(cfg_eff_get(&e0, "i.servers"), cfg_eff_get(&e1, "i.servers")) != 0) {
+          RT_V("cfg16:save-init:i.servers", "system servers %s became %s | %s",
+               cfg_eff_get(&e0, "i.servers"), cfg_eff_get(&e1, "i.servers"), w);
+        }
+        cfg_eff_free(&e1);
+        ares_destroy(ch2);
+        ch2 = NULL;
+      }
+    }
+  }
+
+  /* ---- dup */
+  {
+    int dr = ares_dup(&ch2, ch);
+    CNT("dup_evaluations");
+    if (dr != ARES_SUCCESS) {
+      RT_V("cfg16:dup:failed", "ares_dup rc=%d servers=%s | %s", dr, cfg_eff_get(&e0, "i.servers"), uo);
+      ch2 = NULL;
+    } else {
+      cfg_eff_t e2;
+      cfg_eff_read(ch2, &e2, 0);
+      violated += rt_compare("dup", &e0, &e2, NULL, &u, uo, w);
+      cfg_eff_free(&e2);
+      ares_destroy(ch2);
+      ch2 = NULL;
+    }
+  }
+
+csv:
+  /* ---- csv -> set -> csv, nodes -> set -> nodes on a fresh channel with default ports */
+  {
+    cfg_sys_t empty;
+    int       fr;
+    cfg_sys_init(&empty);
+    cfg_sys_apply(&empty);
+    fr = ares_init_options(&ch2, NULL, 0);
+    if (fr == ARES_SUCCESS) {
+      const char *csv = cfg_eff_get(&e0, "p.csv");
+      int         sr  = ares_set_servers_ports_csv(ch2, csv);
+      CNT("csv_evaluations");
+      if (sr != ARES_SUCCESS) {
+        RT_V("cfg16:csv:own-output-rejected", "ares_set_servers_ports_csv(\"%s\") rc=%d", csv, sr);
+      } else {
+        char *csv2 = ares_get_servers_csv(ch2);
+        char *s2;
+        ares_channel_lock(ch2);
+        s2 = cfg_fmt_servers_internal(ch2, 1, 1);
+        ares_channel_unlock(ch2);
+        if (csv2 == NULL || strcmp(csv, csv2) != 0) {
+          RT_V(rt_has_ll_noiface(cfg_eff_get(&e0, "i.servers"))
+                 ? "cfg16:csv:not-a-fixed-point(linklocal-without-iface)"
+                 : "cfg16:csv:not-a-fixed-point",
+               "\"%s\" -> set -> \"%s\"", csv, csv2 ? csv2 : "(null)");
+        } else if (strcmp(s2, cfg_eff_get(&e0, "i.servers")) != 0) {
+          RT_V("cfg16:csv:servers-differ", "csv \"%s\": original %s, after set %s", csv,
+               cfg_eff_get(&e0, "i.servers"), s2);
+        }
+        ares_free_string(csv2);
+        free(s2);
+      }
+      /* ares_get_servers_ports -> ares_set_servers_ports */
+      {
+        struct ares_addr_port_node *pn = NULL;
+        if (ares_get_servers_ports(ch, &pn) == ARES_SUCCESS) {
+          int   pr = ares_set_servers_ports(ch2, pn);
+          char *s2;
+          ares_channel_lock(ch2);
+          s2 = cfg_fmt_servers_internal(ch2, 1, 0);
+          ares_channel_unlock(ch2);
+          CNT("nodes_evaluations");
+          if (pr != ARES_SUCCESS) {
+            RT_V("cfg16:nodes:ports-rejected", "ares_set_servers_ports rc=%d", pr);
+          } else if (strstr(cfg_eff_get(&e0, "i.servers"), "6:fe8") == NULL &&
+                     strcmp(s2, cfg_eff_get(&e0, "p.ports")) != 0) {
+            RT_V("cfg16:nodes:ports-differ", "%s -> %s", cfg_eff_get(&e0, "p.ports"), s2);
+          }
+          free(s2);
+          ares_free_data(pn);
+        }
+      }
+      /* ares_get_servers -> ares_set_servers (addresses only) */
+      {
+        struct ares_addr_node *an = NULL;
+        if (ares_get_servers(ch, &an) == ARES_SUCCESS) {
+          int   pr = ares_set_servers(ch2, an);
+          char *s2, *exp;
+          ares_channel_lock(ch2);
+          s2 = cfg_fmt_servers_internal(ch2, 0, 0);
+          ares_channel_unlock(ch2);
+          exp = rt_dedup_addrs(cfg_eff_get(&e0, "i.server_addrs"));
+          if (pr != ARES_SUCCESS) {
+            RT_V("cfg16:nodes:addrs-rejected", "ares_set_servers rc=%d", pr);
+          } else if (strstr(exp, "6:fe8") == NULL && strcmp(s2, exp) != 0) {
+            RT_V("cfg16:nodes:addrs-differ", "%s -> %s", exp, s2);
+          }
+          free(s2);
+          free(exp);
+          ares_free_data(an);
+        }
+      }
+      ares_destroy(ch2);
+      ch2 = NULL;
+    }
+    cfg_sys_apply(&sys);
+  }
+
+  cfg_case_nontrivial = (!u.use_null && rt_popcount((unsigned)u.mask) >= 3) || e0.nservers >= 2;
+  if (vh_want_sample() && cfg_case_nontrivial && nset > 0) {
+    vh_sb_t sb = { 0 };
+    vh_sb_printf(&sb, "{\"profile\":\"roundtrip\",\"options\":");
+    vh_sb_jstr(&sb, uo, strlen(uo));
+    vh_sb_printf(&sb, ",\"setter\":%d,\"servers\":", how);
+    vh_sb_jstr(&sb, cfg_eff_get(&e0, "i.servers"), strlen(cfg_eff_get(&e0, "i.servers")));
+    vh_sb_printf(&sb, ",\"csv\":");
+    vh_sb_jstr(&sb, cfg_eff_get(&e0, "p.csv"), strlen(cfg_eff_get(&e0, "p.csv")));
+    vh_sb_printf(&sb, "}");
+    vh_sample(sb.b);
+    free(sb.b);
+  }
+  cfg_eff_free(&e0);
+
+done:
+  if (ch) {
+    ares_destroy(ch);
+  }
+  cfg_lib_end("after ares_destroy + ares_library_cleanup", &sys);
+  /* distinct = (option mask, server-encoding class, setter, sysconfig directive set) */
+  cfg_case_fp = vh_fnv_u64(cfg_case_fp, (uint64_t)(u.use_null ? 0xffffffffu : (unsigned)u.mask));
+  cfg_case_fp = vh_fnv_u64(cfg_case_fp, sclass);
+  cfg_case_fp = vh_fnv_u64(cfg_case_fp, (uint64_t)(how + 1));
+  cfg_case_fp = vh_fnv_u64(cfg_case_fp, dirs);
+  (void)violated;
+  free(set_text);
+  free(uo);
+  free(w);
+  cfg_sys_free(&sys);
+}
+
 #endif
